@@ -38,6 +38,10 @@ func run(c *core.Case) {
 		c.Count("skipped_after_spinning_goroutine", 1)
 		return
 	}
+	if c.Index%250 == 123 {
+		runShared(c)
+		return
+	}
 	block, off := c.Index/period, c.Index%period
 	if off < w1per {
 		runScript(c, genScript(c.Rand, block*w1per+off))
@@ -48,7 +52,7 @@ func run(c *core.Case) {
 
 // Prop returns the C09 check.
 func Prop() *core.Prop {
-	req := []string{"w1_cases", "w2_cases", "serve_returned_error", "serve_returned_nil", "sentinels_answered", "w1_mutated_cases",
+	req := []string{"shared_mux_cases", "shared_mux_requests_answered", "w1_cases", "w2_cases", "serve_returned_error", "serve_returned_nil", "sentinels_answered", "w1_mutated_cases",
 		"h_ping", "h_time", "h_version", "h_disco_info", "h_disco_items", "h_roster", "h_block_list", "h_block", "h_unblock", "h_bob",
 		"h_ibb_open", "h_ibb_data", "h_ibb_close", "h_ibb_refused", "h_ibb_bytes", "h_receipts_request", "h_receipts_received",
 		"h_history_inner", "h_history_tracked", "h_muc_invite", "h_muc_direct_invite", "h_muc_presence", "h_muc_join", "h_carbons", "h_caps",
@@ -87,7 +91,7 @@ func Prop() *core.Prop {
 		ID:    "C09",
 		Level: core.Exploration,
 		Race:  os.Getenv("C09_RACE") != "0", // race detector on (it found the history iterator's shared stream); C09_RACE=0 turns it off
-		Rule:  "case i is workload 1 (20 of every 23) or workload 2 (3 of every 23). Workload 1: grammar rule i mod 27 (one per handler namespace plus plain and stream-level material) gives canonical stanzas and application actions (tracked history query, receipt-requesting send, MUC join/leave, outgoing IBB stream); from the second round on 1-3 structural mutations (22 kinds) or a byte-level mutation (6 kinds) hit the rule's stanzas, from the third round canonical stanzas of other rules are put before/after; a sentinel ping follows every peer write; delivery is step-by-step or in one burst; the input ends with a closing tag or a bare EOF. In one case of eight (from the second round) the application calls Session.Close at a PRNG-chosen point and the peer keeps sending (with or without sentinels) before it ends the stream; a third of the replies to application calls (MUC join/leave, receipts, ibb.Open, tracked history query) are delivered in 2-3 pieces cut at PRNG-chosen offsets (half of the time right after the start tag) with the call's context cancelled before, between or after the pieces. A third of the tracked history consumers close their iterator after 0-2 results, waiting (bounded) until a further result is in flight; no consumer ever just stops reading without closing. Workload 2 (a quarter of the cases from the second round: iterator-style helpers are closed after 0-2 items without reading the rest): helper i mod 46 against a peer that answers its k-th request with a canonical / error / mutated / byte-mutated / unroutable reply, 40% of them (from the second round) delivered in pieces with the helper's context cancelled before / between / after the pieces. Signature = (rule, mutation kinds, Serve outcome) or (helper, reply classes, helper outcome).",
+		Rule:  "case i is workload 1 (20 of every 23) or workload 2 (3 of every 23); one case in 250 is workload 3 instead: 2-4 sessions served at once through ONE mux.ServeMux value carrying the responders that keep no per-session state (disco, version, ping, entity time, blocking), every peer sending 30-70 requests at the same time: no panic or fatal runtime error, every Serve returns nil, every request answered once on its own session. Workload 1: grammar rule i mod 27 (one per handler namespace plus plain and stream-level material) gives canonical stanzas and application actions (tracked history query, receipt-requesting send, MUC join/leave, outgoing IBB stream); from the second round on 1-3 structural mutations (22 kinds) or a byte-level mutation (6 kinds) hit the rule's stanzas, from the third round canonical stanzas of other rules are put before/after; a sentinel ping follows every peer write; delivery is step-by-step or in one burst; the input ends with a closing tag or a bare EOF. In one case of eight (from the second round) the application calls Session.Close at a PRNG-chosen point and the peer keeps sending (with or without sentinels) before it ends the stream; a third of the replies to application calls (MUC join/leave, receipts, ibb.Open, tracked history query) are delivered in 2-3 pieces cut at PRNG-chosen offsets (half of the time right after the start tag) with the call's context cancelled before, between or after the pieces. A third of the tracked history consumers close their iterator after 0-2 results, waiting (bounded) until a further result is in flight; no consumer ever just stops reading without closing. Workload 2 (a quarter of the cases from the second round: iterator-style helpers are closed after 0-2 items without reading the rest): helper i mod 46 against a peer that answers its k-th request with a canonical / error / mutated / byte-mutated / unroutable reply, 40% of them (from the second round) delivered in pieces with the helper's context cancelled before / between / after the pieces. Signature = (rule, mutation kinds, Serve outcome) or (helper, reply classes, helper outcome).",
 		Assumptions: []string{
 			"the application side is cooperative: it accepts and drains IBB streams, consumes iterators, never blocks in a callback, cancels its contexts once Serve has returned",
 			"the tracked-history consumer reads every token of Iter.Current() in a third of the cases (on another goroutine than Serve, as the API intends)",
